@@ -549,6 +549,24 @@ func fixedCases() []Case {
 		{K: "block", B: 1}, {K: "write", B: 6, A: 3, V: 11}, {K: "read", B: 1, A: 3},
 		{K: "stable", B: 6},
 	}})
+	// 5. regression (found by the thorough tier, seed 1): PatriciaTrie.put's split case hands
+	// the old node's children slice to the new lower node; a later read-through insert
+	// through the parent's view appends into the spare capacity of that slice and shifts the
+	// elements the child's view still uses.
+	//   after the restart block 1 reads r0, r1 (the shared root gets a prefix node with two
+	//   children) and writes r3 (clone of the prefix node + append: len 3, cap 4); block 2
+	//   writes r4, which splits the prefix node in the middle (lower half shares the slice);
+	//   a read of r2 through block 1 inserts before r3 in place -> block 2's view loses r3.
+	p18 := pre[:36]
+	raddrs := []string{p18 + "0000", p18 + "0001", p18 + "0002", p18 + "000f", p18[:20] + "f" + p18[21:] + "0000"}
+	out = append(out, Case{Name: "regress-split-shares-children-slice", Addrs: raddrs, Ops: []Op{
+		{K: "block", B: -1}, {K: "write", B: 0, A: 0, V: 1}, {K: "write", B: 0, A: 1, V: 2}, {K: "write", B: 0, A: 2, V: 3}, {K: "write", B: 0, A: 3, V: 4},
+		{K: "stable", B: 0}, {K: "reopen"},
+		{K: "block", B: 0}, {K: "read", B: 1, A: 0}, {K: "read", B: 1, A: 1}, {K: "write", B: 1, A: 3, V: 5},
+		{K: "block", B: 1}, {K: "write", B: 2, A: 4, V: 6},
+		{K: "read", B: 1, A: 2},
+		{K: "read", B: 2, A: 3},
+	}})
 	return out
 }
 
@@ -572,6 +590,10 @@ type exec struct {
 	// SetStableBlock, the cache is dropped there and at reopen
 	diskCache map[int]int64
 	rot       int
+	// Gets that fell back to disk and inserted the stable value into a trie in place since
+	// the last complete clean sweep (the trigger part of a view-read-differs class)
+	cachingGets    int
+	lastCachingGet string
 	// shape of the current history (a history ends at a reopen)
 	hist histShape
 }
@@ -677,8 +699,9 @@ func (x *exec) disk(a int) (int64, error) {
 	return balanceOf(acc, x.addrs[a]), nil
 }
 
-// get is the real, caching read.
-func (x *exec) get(adb *store.AccountTrieDB, a int) (int64, error) {
+// get is the real, caching read through the view of block b.
+func (x *exec) get(adb *store.AccountTrieDB, b, a int) (int64, error) {
+	inTrie := adb.GetTrie().Find(x.keys[a]) != nil
 	acc, err := adb.Get(x.addrs[a])
 	if err == store.ErrAccountNotExist {
 		return 0, nil
@@ -686,7 +709,21 @@ func (x *exec) get(adb *store.AccountTrieDB, a int) (int64, error) {
 	if err != nil {
 		return 0, err
 	}
+	if !inTrie {
+		// the stable value came from disk and was inserted into the (shared) trie in place
+		x.cachingGets++
+		x.lastCachingGet = fmt.Sprintf("Get(addr %d) through the view of block %d", a, b)
+		x.c.Stat("gets_that_cached_the_stable_value", 1)
+	}
 	return balanceOf(acc, x.addrs[a]), nil
+}
+
+// trigger names what happened since the views were last seen right.
+func (x *exec) trigger() string {
+	if x.cachingGets > 0 {
+		return "after-read-through-caching"
+	}
+	return "after-" + x.cs.Ops[x.opi].K
 }
 
 // peek observes what Get would return without inserting the stable value into the trie.
@@ -753,14 +790,24 @@ func (x *exec) checkRead(b, a int, got int64, how string) bool {
 	if got == want {
 		return true
 	}
-	x.viol("view-read-differs:"+x.classifyRead(b, a, got),
-		fmt.Sprintf("%s of addr %d (%s) through the view of block %d (height %d, stable height %d) returned %s, the model says %s",
-			how, a, x.cs.Addrs[a], b, x.m.blocks[b].height, x.m.rootHeight(), x.describe(got), x.describe(want)))
+	msg := fmt.Sprintf("%s of addr %d (%s) through the view of block %d (height %d, stable height %d) returned %s, the model says %s",
+		how, a, x.cs.Addrs[a], b, x.m.blocks[b].height, x.m.rootHeight(), x.describe(got), x.describe(want))
+	if x.cachingGets > 0 {
+		msg += fmt.Sprintf("; every view was right before %d read(s) that fell back to disk and cached the stable value in place, the last one %s", x.cachingGets, x.lastCachingGet)
+	}
+	x.viol("view-read-differs:"+x.classifyRead(b, a, got)+":"+x.trigger(), msg)
 	return false
 }
 
 // viewSweep compares every live view x every address with the model.
 func (x *exec) viewSweep(mut bool) bool {
+	before := x.cachingGets
+	defer func() {
+		if !x.failed {
+			// a clean sweep: only the caching reads of this sweep itself are still unobserved
+			x.cachingGets -= before
+		}
+	}()
 	for _, b := range x.m.liveBlocks() {
 		ok, err := x.db.IsExistByHash(x.hashes[b])
 		if err != nil || !ok {
@@ -776,7 +823,7 @@ func (x *exec) viewSweep(mut bool) bool {
 			var got int64
 			how := "Get"
 			if mut {
-				got, err = x.get(adb, a)
+				got, err = x.get(adb, b, a)
 			} else {
 				how = "Find-else-disk"
 				got, err = x.peek(adb, a)
@@ -1103,14 +1150,14 @@ func (x *exec) step(op Op) bool {
 			x.viol("unexpected-error:GetActDatabase", fmt.Sprint(err))
 			return false
 		}
-		inTrie := adb.GetTrie().Find(x.keys[op.A]) != nil
-		got, err := x.get(adb, op.A)
+		n := x.cachingGets
+		got, err := x.get(adb, op.B, op.A)
 		if err != nil {
 			x.viol("unexpected-error:Get", err.Error())
 			return false
 		}
 		x.c.Stat("get_reads", 1)
-		if !inTrie && got != 0 {
+		if x.cachingGets > n {
 			x.c.Stat("get_reads_that_cached_the_stable_value", 1)
 		}
 		x.hist.fp = append(x.hist.fp, "r")
